@@ -124,6 +124,10 @@ def render_pat(p: Any) -> str:
 # normalisation
 # ------------------------------------------------------------------------------------------------
 
+KEEP_MACROS = {"format", "write", "writeln", "print", "println", "eprint", "eprintln", "vec", "panic", "todo", "unimplemented",
+               "unreachable", "assert", "assert_eq", "assert_ne", "debug_assert", "dbg"}
+
+
 def strip(e: Any) -> Any:
     """Peel presentation: statement-free blocks, non-diverging macro wrappers, `&*x` / `*&x` pairs."""
     while isinstance(e, dict):
@@ -131,7 +135,7 @@ def strip(e: Any) -> Any:
         if k == "block" and not e["stmts"] and e.get("tail") is not None:
             e = e["tail"]
             continue
-        if k == "macro" and not e.get("never") and e["name"] in ("concat", "stringify", "matches"):
+        if k == "macro" and not e.get("never") and e["name"] not in KEEP_MACROS:
             e = e["e"]
             continue
         if k == "ref" and isinstance(e["e"], dict) and e["e"].get("k") == "deref":
